@@ -356,3 +356,57 @@ func VK14dIndexUploads() {
 	vrt.Assert(len(ix.needs) == 0, "nothing stays pending after concurrent uploads of a complete set")
 	vrt.Cover("done")
 }
+
+// K06c (C06): a delete claim that is received BEFORE its target. The calls below are the ones
+// Index.ReceiveBlob makes (receive.go: populateMutationMap returns the partial map {meta, have}
+// with a nil error for an index miss; then commit + corpus.addBlob; when the target has been
+// indexed the claim is re-indexed: populateDeleteClaim + noteDelete + commit + corpus.addBlob).
+// The live corpus must agree with a corpus loaded from the resulting rows.
+func VK06cDeleteBeforeTarget() {
+	kv := &vmodel.KV{}
+	ix, err := New(kv)
+	vrt.Assert(err == nil, "index.New succeeds")
+	ix.corpus = newCorpus()
+	ctx := context.Background()
+	target, d := blob.VerifSmallRef(1), blob.VerifSmallRef(11)
+	signer := blob.VerifSmallRef(200)
+	vr := &jsonsign.VerifyRequest{SignerKeyId: "KEY1", CamliSigner: signer}
+	cl := vDeleteClaim(d, target, time.Unix(1010, 0))
+	deliver := func(br blob.Ref, mm *mutationMap) {
+		vrt.Assert(ix.commit(mm) == nil, "commit succeeds")
+		vrt.Assert(ix.corpus.addBlob(ctx, br, mm) == nil, "the corpus accepts the blob")
+	}
+	targetRows := func() *mutationMap {
+		return &mutationMap{kv: map[string]string{
+			"meta:" + target.String(): "100|application/json; camliType=permanode",
+			"have:" + target.String(): "100|indexed"}}
+	}
+	claimRows := func() *mutationMap {
+		mm := &mutationMap{signerBlobRef: signer, signerID: "KEY1", kv: map[string]string{
+			"meta:" + d.String():             "100|application/json; camliType=claim",
+			"signerkeyid:" + signer.String(): "KEY1",
+			"have:" + d.String():             "100|indexed"}}
+		perr := ix.populateDeleteClaim(ctx, cl, vr, mm)
+		vrt.Assert(perr == nil, "populateDeleteClaim succeeds once the target is indexed")
+		mm.noteDelete(cl)
+		return mm
+	}
+	if vrt.Bool() {
+		// claim first: indexed partially, then again once the target is there
+		deliver(d, &mutationMap{kv: map[string]string{
+			"meta:" + d.String(): "100|application/json; camliType=claim",
+			"have:" + d.String(): "100"}})
+		deliver(target, targetRows())
+		deliver(d, claimRows())
+		vrt.Cover("claim-first")
+	} else {
+		deliver(target, targetRows())
+		deliver(d, claimRows())
+		vrt.Cover("target-first")
+	}
+	loaded, err := NewCorpusFromStorage(kv)
+	vrt.Assert(err == nil, "a corpus loads from the rows")
+	vrt.Assert(ix.IsDeleted(target), "the index's own deletion cache knows the deletion")
+	vrt.Assert(loaded.IsDeleted(target), "a corpus loaded from the rows knows the deletion")
+	vrt.Assert(ix.corpus.IsDeleted(target) == loaded.IsDeleted(target), "the live corpus agrees with a corpus loaded from the same rows about a deletion")
+}
